@@ -412,7 +412,7 @@ func (FramesFaults) Execute(pl engine.Plan, c *engine.RunCtx) *engine.Failure {
 				st.Inc("probe.C07.wfail_sweep_enumerated")
 			}
 			for _, k := range pts {
-				for _, mode := range []string{"partial", "boundary"} {
+				for _, mode := range []string{"partial", "boundary", "eager"} {
 					for _, sticky := range []bool{false, true} {
 						st.Inc("fault.configured.wr.fail_" + mode)
 						st.Inc("fault_points")
@@ -450,7 +450,7 @@ func (FramesFaults) Execute(pl engine.Plan, c *engine.RunCtx) *engine.Failure {
 						if n != int64(len(w.Got)) {
 							return engine.Failf("C07.wfail.count", step, "%s: Marshal returned n=%d, the writer accepted %d bytes", what, n, len(w.Got))
 						}
-						if mode == "partial" && n != int64(k) {
+						if (mode == "partial" || mode == "eager") && n != int64(k) {
 							return engine.Failf("C07.wfail.count", step, "%s: Marshal returned n=%d, the writer failed after accepting %d", what, n, k)
 						}
 						if !bytes.Equal(w.Got, fr.frame[:len(w.Got)]) {
